@@ -52,4 +52,5 @@ c49c330 C20
 21f8a1e C10
 7a3b114 C16
 70eb3db C16
+e416d58 C07
 LIST
